@@ -318,6 +318,14 @@ class FunctionRun:
                 k = z3.Const(fresh_name('dg'), v.ty.key.sort())
                 vv = v.ty.valmap(v.t)[k]
                 st.assume(z3.ForAll([k], z3.Implies(v.ty.has(v.t)[k], z3.And(vv >= 0, vv < st.heap.get('next_gid'))), patterns=[vv]))
+            if isinstance(v, Val) and isinstance(v.ty, TList) and isinstance(v.ty.elem, TDict) and isinstance(v.ty.elem.val, TGraph):
+                dty = v.ty.elem
+                i = z3.Int(fresh_name('li'))
+                k = z3.Const(fresh_name('dg'), dty.key.sort())
+                d = v.ty.arr(v.t)[i]
+                vv = dty.valmap(d)[k]
+                st.assume(z3.ForAll([i, k], z3.Implies(z3.And(0 <= i, i < v.ty.length(v.t), dty.has(d)[k]),
+                                                       z3.And(vv >= 0, vv < st.heap.get('next_gid'))), patterns=[vv]))
         # ghosts
         for g, (ty, init) in c.ghosts.items():
             st.env[g] = ops.coerce(self.spec_expr(init, st, None), parse_type(ty))
